@@ -163,6 +163,18 @@ func siblingAgreement(w *World, r *Result, rule string, fns []string) {
 		}
 	}
 	for _, f := range fns {
+		if _, ok := acc[f]; ok {
+			continue
+		}
+		// the dispatch may sit in a helper the function hands its node parameter to
+		for _, h := range nodeParamHelpers(w, w.Func(f)) {
+			for _, si := range sws {
+				if si.itf == "analysis.Type" && si.onParam && si.fn == h.Name && len(si.accepted) > len(acc[f]) {
+					acc[f] = append([]string{}, si.accepted...)
+					pos[f] = si.pos
+				}
+			}
+		}
 		if _, ok := acc[f]; !ok {
 			Undecided("EXH-b: no type switch on the node parameter of %s", f)
 		}
